@@ -72,3 +72,46 @@ func VerifDequantize(v uint64, bits int) float64 { return dequantize(v, bits) }
 
 func VerifEuclidean(a, b []float64) float64 { return euclideanDistance(a, b) }
 func VerifAngular(a, b []float64) float64   { return angularDistance(a, b) }
+
+// VerifNode is a copy of one node of the LSH forest.
+type VerifNode struct {
+	Leaf        bool
+	IDs         []uint64
+	Normal      []float64
+	B           float64
+	Left, Right *VerifNode
+}
+
+func verifCopyNode(n *lshNode) *VerifNode {
+	if n == nil {
+		return nil
+	}
+	if n.isLeaf() {
+		return &VerifNode{Leaf: true, IDs: append([]uint64{}, n.ids...)}
+	}
+	return &VerifNode{Normal: append([]float64{}, n.normal...), B: n.b, Left: verifCopyNode(n.left), Right: verifCopyNode(n.right)}
+}
+
+// VerifForest returns a copy of the LSH forest of the collection.
+func (c *Collection) VerifForest() []*VerifNode {
+	out := make([]*VerifNode, len(c.lshTree.roots))
+	for i, r := range c.lshTree.roots {
+		out[i] = verifCopyNode(r)
+	}
+	return out
+}
+
+// VerifConsiderHook, when set, is called with every document id the search callback is asked to consider.
+var VerifConsiderHook func(id uint64)
+
+func verifConsider(id uint64) {
+	if VerifConsiderHook != nil {
+		VerifConsiderHook(id)
+	}
+}
+
+func VerifDistanceToHyperplane(method int, v []float64, length float64, normal []float64, b float64) (float64, bool) {
+	return distanceToHyperplane(method, v, length, normal, b)
+}
+
+func VerifVectorLength(v []float64) float64 { return vectorLength(v) }
